@@ -217,6 +217,15 @@ def layers(tier):
                                 jobs.append({'gen': g, 'q': q, 'padding': padding, 'rs': rs, 't': t,
                                              'op': op, 'n_jobs': nj, 'pres': pres,
                                              'order': 'rev' if nj == 3 else None})
+    for q in (1, 2, 3):         # every operator x n_jobs x threshold (incl. non-integral) on a smaller universe
+        for padding in (True, False):
+            for rs in (False, True):
+                for t in (0, 0.5, 1, 2, 2.7):
+                    for op in ('<=', '<', '='):
+                        for nj in (2, 3):
+                            jobs.append({'gen': {'gen': 'struniv', 'alpha': 'ab', 'lmax': 4, 'rmax': 4}, 'q': q,
+                                         'padding': padding, 'rs': rs, 't': t, 'op': op, 'n_jobs': nj, 'pres': pres,
+                                         'order': 'rev' if nj == 3 else None})
     for t in (0, 1, 2):         # pandas str columns and the other presentations, whatever the seed
         for p_ in (1, 2, 3, 4, 5):
             jobs.append({'gen': {'gen': 'struniv', 'alpha': 'ab', 'lmax': 4, 'rmax': 4}, 'q': 2, 'padding': True,
